@@ -13,6 +13,8 @@ ONLY = sys.argv[2:]
 ENV = dict(os.environ, GOFLAGS='-mod=mod', GOPROXY='off', GOSUMDB='off', GOTOOLCHAIN='local', VERIF_REPO=RW)
 P = RW + '/graphql/parser/parser.go'
 SC = RW + '/graphql/scanner/scanner.go'
+AST = RW + '/graphql/ast/ast.go'
+FILES = {'scanner': SC, 'ast': AST}
 
 
 def once(old, new):
@@ -95,6 +97,14 @@ MUTANTS = [
   ('scanner', once("\tif r == '\\n' || (r == '\\r' && s.nextRune != '\\n') {", "\tif r == '\\n' {"))),
  ('N7 SCANNER: U+FEFF accepted as a byte order mark anywhere (needs an inner BOM)',
   ('scanner', once('\t\t\tif s.offset == 0 {\n\t\t\t\ts.token = token.UNICODE_BOM', '\t\t\tif s.offset >= 0 {\n\t\t\t\ts.token = token.UNICODE_BOM'))),
+ ('P1 AST: (*Field).Position() ignores the alias (needs an aliased field)',
+  ('ast', once('\tif n.Alias != nil {\n\t\treturn n.Alias.Position()\n\t}\n\treturn n.Name.Position()', '\treturn n.Name.Position()'))),
+ ('P2 AST: (*OperationDefinition).Position() of a typed operation is its selection set (needs query/mutation/subscription)',
+  ('ast', once('\tif n.OperationType != nil {\n\t\treturn n.OperationType.Position()\n\t}\n\treturn n.SelectionSet.Position()', '\treturn n.SelectionSet.Position()'))),
+ ('P3 AST: (*ObjectField).Position() is the position of the value (needs an object value)',
+  ('ast', once('func (n *ObjectField) Position() token.Position { return n.Name.Position() }', 'func (n *ObjectField) Position() token.Position { return n.Value.Position() }'))),
+ ('P4 AST: (*ListType).Position() is the closing bracket (needs a list type)',
+  ('ast', once('func (n *ListType) Position() token.Position { return n.Opening }', 'func (n *ListType) Position() token.Position { return n.Closing }'))),
  ('S1 silent: error messages reworded, locals renamed, composite-literal fields reordered', silent),
 ]
 
@@ -120,7 +130,7 @@ def main():
             continue
         path = P
         if isinstance(fn, tuple):
-            path, fn = SC, fn[1]
+            path, fn = FILES[fn[0]], fn[1]
         src = open(path).read()
         m = fn(src)
         assert m != src, name
@@ -135,7 +145,7 @@ def main():
             results[name] = dict(mutant=name, suite_passes=tests_ok, runs=runs)
             print(name, '| suite passes:', tests_ok, '|', [(r['exit'], r['violations']) for r in runs], flush=True)
         finally:
-            sh('git checkout graphql/parser/parser.go graphql/scanner/scanner.go', RW)
+            sh('git checkout graphql/parser/parser.go graphql/scanner/scanner.go graphql/ast/ast.go', RW)
     json.dump(dict(clean_tree=clean, mutants=list(results.values())), open(out_path, 'w'), indent=1)
 
 
